@@ -292,6 +292,7 @@ def run_r14(run):
     check_range_guard(run, 'quaternion:UnitQuaternion.interp', 's')
     check_shortest_block(run, 'base/quaternions:slerp', 'q0', 'dotprod')
     check_shortest_block(run, 'quaternion:UnitQuaternion.interp', 'q1', 'dot')
+    check_arc_option_threading(run)
     check_slerp_forms(run)
     check_uq_interp_forms(run)
     check_trinterp_tables(run)
@@ -340,3 +341,31 @@ def run_r14(run):
         run.holds(RULE, f.key, 'dimension routing', 'N == 2 -> trinterp2, N == 3 -> trinterp', f=f)
     else:
         run.error('R14: SMPose.interp: no reference to %s found under its N test' % ' / '.join(n for n, o in (('trinterp2', ok2), ('trinterp', ok3)) if not o))
+
+
+def check_arc_option_threading(run, rule=RULE):
+    """The arc an interpolation takes is the caller's choice where the function has a `shortest` parameter, and the arc of the
+    matrix interpolator (trinterp -> slerp with its default) where it has none.  A call that passes a LITERAL shortest=... inside a
+    function without a `shortest` parameter fixes an arc the caller cannot see: the route then disagrees with its sibling routes
+    (vector s / scalar s; pose method / trinterp) whenever the quaternion dot product is negative."""
+    n = 0
+    for f in run.prog.analysed_functions():
+        if f.module.short in ('timing', 'base/animate', 'base/graphics', 'stdlib/collections'):
+            continue
+        for c in own_walk(f.node):
+            if not isinstance(c, ast.Call):
+                continue
+            for k in c.keywords:
+                if k.arg != 'shortest':
+                    continue
+                n += 1
+                construct = 'shortest option in ' + src(c, 50)
+                if isinstance(k.value, ast.Name) and k.value.id in f.allparams:
+                    run.holds(rule, f.key, construct, 'the caller\'s own option is passed on', f=f, node=c)
+                elif isinstance(k.value, ast.Constant) and 'shortest' not in f.allparams and k.value.value is not False:
+                    run.violation(rule, f.key, construct, '%s has no `shortest` parameter but fixes shortest=%r in this call: on this route the interpolation takes '
+                                  'another arc than the routes that go through trinterp / the default whenever the quaternion dot product of the end points is '
+                                  'negative' % (f.name, k.value.value), f=f, node=c)
+                else:
+                    run.holds(rule, f.key, construct, 'explicit default / derived value', f=f, node=c)
+    return n
